@@ -28,7 +28,7 @@ COMPONENTS = {"real": ["setigen.voltage.data_stream.DataStream", "setigen.voltag
 ASSUMPTIONS = ["numpy Generator.standard_normal is stream-consistent (n1 then n2 draws == n1+n2 draws); asserted at start-up",
                "at most one noise source per stream (two sources share one generator, so their draws legitimately interleave per request)",
                "custom sources are pure functions of the time array"]
-PROBES = ["dyadic_bitwise", "request_len_1", "control_set_time", "control_add_time", "control_reset_start",
+PROBES = ["source_returns_view_of_own_array", "dyadic_bitwise", "request_len_1", "control_set_time", "control_add_time", "control_reset_start",
           "control_update_noise", "complex_source", "descending_band", "antenna_two_pols", "negative_drift", "source_callback_error"]
 
 
@@ -52,7 +52,7 @@ def gen_sources(rng, fs, fch1, ascending):
                               "drift": rng.choice([0.0, 0.0, 1.0, -1.0, 250.0, -3000.0, 1e5]),
                               "level": rng.choice([1.0, 0.1, 5.0]), "phase": rng.choice([0.0, 0.5, -1.2, math.pi])})
     for _ in range(rng.choice([0, 0, 1, 1, 2])):
-        src["customs"].append({"kind": rng.choice(["sin", "cexp", "lin", "const", "list"]),
+        src["customs"].append({"kind": rng.choice(["sin", "cexp", "lin", "const", "list", "rtable", "ctable", "ctable"]),
                                "a": rng.choice([1.0, 0.25, -2.0]), "f": rng.choice([0.5, 3.0, 40.0])})
     return src
 
@@ -147,9 +147,36 @@ def simplify(sc):
 
 # ---------------------------------------------------------------------------
 
+CPLX_KINDS = ("cexp", "ctable")
+
+
+class TableSource:
+    """A user source that serves a slice (a view, not a copy) of its own persistent table: a constant offset, real or
+    complex.  The library must treat what a source returns as read-only input."""
+    live = []
+
+    def __init__(self, value):
+        self.value = value
+        self.table = np.full(4096, value)
+        TableSource.live.append(self)
+
+    def __call__(self, ts):
+        n = len(ts)
+        if n > len(self.table):
+            self.table = np.full(2 * n, self.value)
+        return self.table[:n]
+
+    def intact(self):
+        return bool(np.all(self.table == self.value))
+
+
 def make_custom(c):
     a, f = c["a"], c["f"]
     k = c["kind"]
+    if k == "rtable":
+        return TableSource(float(a))
+    if k == "ctable":
+        return TableSource(complex(a, 0.5 * f))
     if k == "sin":
         return lambda ts: a * np.sin(2 * np.pi * f * ts)
     if k == "cexp":
@@ -165,7 +192,7 @@ def make_custom(c):
 
 def custom_lipschitz(c):
     a, f = abs(c["a"]), abs(c["f"])
-    return {"sin": 2 * np.pi * f * a, "cexp": 2 * np.pi * f * a, "lin": a, "const": 0.0, "list": a}[c["kind"]]
+    return {"sin": 2 * np.pi * f * a, "cexp": 2 * np.pi * f * a, "lin": a, "const": 0.0, "list": a, "rtable": 0.0, "ctable": 0.0}[c["kind"]]
 
 
 def build(cfg, setigen_voltage):
@@ -300,17 +327,21 @@ def execute(sc, ctx):
     top, streams = build(cfg, sv)
     states = [copy.deepcopy(s.rng.bit_generator.state) for s in streams]
     gates = []
+    TableSource.live = []
     add_sources(streams, cfg, gates)
     refs = [RefStream(cfg, src, st) for src, st in zip(cfg["sources"], states)]
     twin, tstreams = build(cfg, sv)
     add_sources(tstreams, cfg)
+    user_tables = list(TableSource.live)      # arrays owned by the user's sources (system under test and twin)
+    if user_tables:
+        ctx.hit("source_returns_view_of_own_array")
     if not cfg["ascending"]:
         ctx.hit("descending_band")
     if cfg["pols"] == 2:
         ctx.hit("antenna_two_pols")
     if any(ch["drift"] < 0 for s in cfg["sources"] for ch in s["chirps"]):
         ctx.hit("negative_drift")
-    if any(cu["kind"] == "cexp" for s in cfg["sources"] for cu in s["customs"]):
+    if any(cu["kind"] in CPLX_KINDS for s in cfg["sources"] for cu in s["customs"]):
         ctx.hit("complex_source")
     if ctx.check(all(a != b for a, b in zip(states[:1], states[1:])) or len(states) < 2, "seeds",
                  "C10/antenna/pols_share_noise_seed", "x and y generators start in the same state"):
@@ -358,6 +389,9 @@ def execute(sc, ctx):
             out = top.get_samples(n)
             out = np.asarray(out)
             ctx.event("get", out)
+            if not ctx.check(all(t.intact() for t in user_tables), "custom", "C10/custom/array_returned_by_source_modified",
+                             "the library wrote into the array a user source returned"):
+                return
             ngets += 1
             nsamples += n
             if is_ant:
@@ -388,7 +422,7 @@ def execute(sc, ctx):
                 got = per_pol[p]
                 tol = ref.value_tol(ts_ref, t_tol)
                 # stacking x and y in one array promotes a real pol next to a complex one
-                any_cplx = any(cu["kind"] == "cexp" for sr in cfg["sources"] for cu in sr["customs"])
+                any_cplx = any(cu["kind"] in CPLX_KINDS for sr in cfg["sources"] for cu in sr["customs"])
                 dt_ok = np.iscomplexobj(got) == (np.iscomplexobj(want) or (is_ant and any_cplx))
                 if np.iscomplexobj(got) and not np.iscomplexobj(want):
                     dt_ok = dt_ok and not np.any(got.imag)
@@ -526,7 +560,7 @@ def _blame(ref, ts, z, got, dy, t_tol):
     """Classify which component disagrees (for the signature)."""
     src = ref.src
     parts = []
-    if np.iscomplexobj(got) != any(c["kind"] == "cexp" for c in src["customs"]) and (
+    if np.iscomplexobj(got) != any(c["kind"] in CPLX_KINDS for c in src["customs"]) and (
             not np.iscomplexobj(got) or np.any(np.asarray(got).imag)):
         return "complex_promotion"
     if src["noise"] is not None and not src["chirps"] and not src["customs"]:
